@@ -4,18 +4,34 @@
 //  B. the REAL restart() shift loops on injected Ritz values: Arnoldi::m_k observed at the "arnoldi.compress" hook vs the index program;
 //     patterns for which the index program predicts a read at index ncv are run in a forked child (expected: Eigen index assertion);
 //  C. operator-call traces (which buffer goes in, which comes out, how many calls, restart sizes, iteration count) of real
-//     SymEigsSolver / GenEigsSolver runs vs the operator-call skeleton fed with the oracle outcomes observed in the run.
+//     SymEigsSolver / GenEigsSolver runs vs the operator-call skeleton fed with the oracle outcomes observed in the run;
+//  D. NESTED (re-entrant) use on one thread (oracle only): an operator whose perform_op(x, y) builds and runs another solver of the
+//     SAME class template instantiation (GenEigsSolver<NestOp>, SymEigsSolver<NestOp>, GenEigsRealShiftSolver<NestOp>; inner problem
+//     of equal size in one share, of different size in the other) and sets y = Op x + c*(inner eigenvalue)*x - still a fixed linear
+//     map, because the inner problem is fixed.  Predicates on the real code: no vector of an inner call overlaps a vector of an
+//     operator application that is still in progress; the outer y and x are not modified / freed by the nested solve; every outer
+//     result (info, nconv, counts, eigenvalue bits) equals the NON-nested reference run of the same linear map bit for bit; no
+//     sanitizer report / Eigen assertion.  Every nested case runs in a forked child, so a crash is one failing input with a replay.
 #include "common.h"
 #include <Spectra/Util/VerifHooks.h>
 #include <Spectra/SymEigsSolver.h>
 #include <Spectra/GenEigsSolver.h>
 #include <Spectra/GenEigsComplexShiftSolver.h>
+#include <Spectra/GenEigsRealShiftSolver.h>
 #include <Spectra/MatOp/DenseSymMatProd.h>
 #include <Spectra/MatOp/DenseGenMatProd.h>
 #include <Spectra/MatOp/DenseGenComplexShiftSolve.h>
 #include <unistd.h>
 #include <fcntl.h>
 #include <sys/wait.h>
+#include <memory>
+#include <Eigen/LU>
+#if defined(__SANITIZE_ADDRESS__)
+#include <sanitizer/asan_interface.h>
+#define C13_REGION_BAD(p, n) (__asan_region_is_poisoned((void*) (p), (n)) != nullptr)
+#else
+#define C13_REGION_BAD(p, n) false
+#endif
 using namespace vh;
 using Eigen::Index;
 typedef Eigen::MatrixXd Mat;
@@ -339,6 +355,207 @@ static long jget(const std::string& t, const std::string& k, long d) {
     size_t p = t.find("\"" + k + "\":"); if (p == std::string::npos) return d;
     return std::strtol(t.c_str() + p + k.size() + 3, nullptr, 10);
 }
+// ------------------------------------------------------------------ D. nested (re-entrant) use of one solver instantiation
+struct NestFrame { const double* x; const double* y; Index n; };
+static std::vector<NestFrame> g_nest;          // operator applications in progress, outermost first
+struct NestLog {
+    long calls[2] = {0, 0}, inner_solves = 0, inner_nonconv = 0, notes = 0; FILE* sink = nullptr;
+    void note(const std::string& sig, const std::string& what) {    // written at once: the process may be killed by the sanitizer next
+        notes++; if (sink && notes <= 4) { fprintf(sink, "note %s %s\n", sig.c_str(), what.c_str()); fflush(sink); }
+    }
+};
+static NestLog* g_nlog = nullptr;
+static bool overlap(const double* a, Index na, const double* b, Index nb) { return a < b + nb && b < a + na; }   // same predicate as part C
+static std::string pstr(const void* p) { std::ostringstream o; o << p; return o.str(); }
+
+template <int KIND> struct NestOp;
+template <int KIND> struct NestSolver;
+template <> struct NestSolver<0> { typedef Spectra::GenEigsSolver<NestOp<0>> type; static const char* name() { return "GenEigsSolver"; } };
+template <> struct NestSolver<1> { typedef Spectra::SymEigsSolver<NestOp<1>> type; static const char* name() { return "SymEigsSolver"; } };
+template <> struct NestSolver<2> { typedef Spectra::GenEigsRealShiftSolver<NestOp<2>> type; static const char* name() { return "GenEigsRealShiftSolver"; } };
+template <int KIND, class Op> static typename NestSolver<KIND>::type* nest_make(Op& op, int nev, int ncv, double sigma) {
+    if constexpr (KIND == 2) return new typename NestSolver<KIND>::type(op, nev, ncv, sigma);
+    else { (void) sigma; return new typename NestSolver<KIND>::type(op, nev, ncv); }
+}
+static double ev_real(const Cx& z) { return z.real(); }
+static double ev_real(double z) { return z; }
+
+// y = Op x + c * lam * x;  Op = A (KIND 0, 1) or (A - sigma I)^{-1} (KIND 2);  lam = eigenvalue returned by a nested solve of the
+// fixed inner problem (inner != nullptr), or the constant `fixed_lam` (reference), or no second term at all (innermost operator)
+template <int KIND> struct NestOp {
+    using Scalar = double;
+    Mat A; NestOp* inner = nullptr; bool use_fixed = false; double fixed_lam = 0.0, c = 0.0;
+    int in_nev = 1, in_ncv = 3, in_maxit = 30; double in_sigma = 0.0;
+    Eigen::PartialPivLU<Mat> lu;
+    explicit NestOp(const Mat& A_) : A(A_) {}
+    Index rows() const { return A.rows(); } Index cols() const { return A.cols(); }
+    void set_shift(const double& sigma) { lu.compute(A - sigma * Mat::Identity(A.rows(), A.cols())); }
+    double inner_solve() const {
+        std::unique_ptr<typename NestSolver<KIND>::type> s(nest_make<KIND>(*inner, in_nev, in_ncv, in_sigma));
+        s->init();
+        Index nc = s->compute(Spectra::SortRule::LargestMagn, in_maxit, 1e-10);
+        if (g_nlog) { g_nlog->inner_solves++; if (nc < 1) g_nlog->inner_nonconv++; }
+        if (nc < 1) return 0.0;
+        auto ev = s->eigenvalues();
+        return ev_real(ev[0]);
+    }
+    void perform_op(const double* x, double* y) const {
+        const Index n = A.rows(); const size_t depth = g_nest.size();
+        if (g_nlog) {
+            g_nlog->calls[depth ? 1 : 0]++;
+            if (overlap(x, n, y, n)) g_nlog->note("op-args-alias", "perform_op(x, y) with overlapping x=" + pstr(x) + " y=" + pstr(y) + " n=" + str(n) + " at nesting depth " + str(depth));
+            for (const NestFrame& fr : g_nest) {
+                const char* w = overlap(y, n, fr.y, fr.n) ? "y_inner/y_outer" : overlap(y, n, fr.x, fr.n) ? "y_inner/x_outer" : overlap(x, n, fr.y, fr.n) ? "x_inner/y_outer" : overlap(x, n, fr.x, fr.n) ? "x_inner/x_outer" : nullptr;
+                if (w) g_nlog->note("op-args-nested-alias", std::string("the operator of the inner solver was handed a vector that overlaps a vector of the outer operator application still in progress (") + w +
+                                    "): x_inner=" + pstr(x) + " y_inner=" + pstr(y) + " n_inner=" + str(n) + " x_outer=" + pstr(fr.x) + " y_outer=" + pstr(fr.y) + " n_outer=" + str(fr.n));
+            }
+        }
+        if (KIND == 2) { Vec xv = Eigen::Map<const Vec>(x, n); Vec r = lu.solve(xv); for (Index i = 0; i < n; i++) y[i] = r[i]; }
+        else for (Index i = 0; i < n; i++) { double s = 0; for (Index j = 0; j < n; j++) s += A(i, j) * x[j]; y[i] = s; }
+        double lam = fixed_lam;
+        if (inner) {
+            std::vector<double> y0(y, y + n), x0(x, x + n);
+            g_nest.push_back({x, y, n});
+            try { lam = inner_solve(); } catch (...) { g_nest.pop_back(); throw; }
+            g_nest.pop_back();
+            if (C13_REGION_BAD(y, n * sizeof(double)) || C13_REGION_BAD(x, n * sizeof(double))) {
+                if (g_nlog) g_nlog->note("op-buffer-freed", "a vector handed to the outer operator (x=" + pstr(x) + " y=" + pstr(y) + " n=" + str(n) + ") was freed / reallocated by the nested solve while the outer application was in progress");
+                return;   // do not touch it; the solver that owns it will (sanitizer report)
+            }
+            if (std::memcmp(y0.data(), y, n * sizeof(double)) || std::memcmp(x0.data(), x, n * sizeof(double))) {
+                if (g_nlog) g_nlog->note("op-buffer-clobbered", "the nested solve modified a vector of the outer operator application in progress (x=" + pstr(x) + " y=" + pstr(y) + " n=" + str(n) + ")");
+            }
+        }
+        if (inner || use_fixed) { const double sc = c * lam; for (Index i = 0; i < n; i++) y[i] += sc * x[i]; }
+    }
+};
+
+struct NestCase { int kind, share, idx, n, m, nev, ncv, in_ncv, maxit; double c, sigma, in_sigma; Mat A, B; std::string rep; };
+static NestCase nest_case(uint64_t seed, int kind, int share, int idx) {
+    Rng rng(seed, 41 + kind * 2 + share, idx);
+    NestCase q; q.kind = kind; q.share = share; q.idx = idx;
+    q.n = rng.range(8, 18);
+    q.m = q.n; if (share == 1) { do q.m = rng.range(6, 16); while (q.m == q.n); }
+    q.nev = rng.range(1, 3); q.ncv = rng.range(q.nev + 2, std::min(q.n, q.nev + 7));
+    q.in_ncv = rng.range(3, std::min(q.m, 7));
+    if (share == 0 && idx % 3 == 0 && q.ncv <= q.m) q.in_ncv = q.ncv;     // identical shapes: sharing would be completely silent
+    q.maxit = rng.pick(std::vector<int>{1, 4, 12});
+    q.c = rng.pick(std::vector<double>{0.125, -0.25, 0.5}); q.sigma = 0.37; q.in_sigma = 0.41;
+    const bool sym = kind == 1;
+    q.A = gen_matrix(rng, q.n, rng.pick(std::vector<int>{0, 0, 6, 2}), sym); for (int i = 0; i < q.n; i++) q.A(i, i) += 0.5 * (i + 1);
+    // inner problem with a well separated wanted eigenvalue (largest magnitude / nearest to the inner shift), so that the nested solves converge
+    q.B = 0.02 * gen_matrix(rng, q.m, 0, sym); for (int i = 0; i < q.m; i++) q.B(i, i) += (kind == 2) ? 1.0 + i : 4.0 * std::pow(0.5, q.m - 1 - i);
+    q.rep = "{\"part\":\"D\",\"seed\":" + str(seed) + ",\"kind\":" + str(kind) + ",\"solver\":\"" + std::string(kind == 0 ? NestSolver<0>::name() : kind == 1 ? NestSolver<1>::name() : NestSolver<2>::name()) +
+            "<NestOp>\",\"share\":\"" + (share ? "different-size" : "equal-size") + "\",\"idx\":" + str(idx) + ",\"n_outer\":" + str(q.n) + ",\"n_inner\":" + str(q.m) + ",\"nev\":" + str(q.nev) +
+            ",\"ncv\":" + str(q.ncv) + ",\"ncv_inner\":" + str(q.in_ncv) + ",\"maxit\":" + str(q.maxit) + ",\"c\":" + str(q.c) + "}";
+    return q;
+}
+// one run of the outer solver with operator `op`; canonical result line
+template <int KIND> static std::string nest_run(NestOp<KIND>& op, const NestCase& q) {
+    try {
+        std::unique_ptr<typename NestSolver<KIND>::type> s(nest_make<KIND>(op, q.nev, q.ncv, q.sigma));
+        s->init();
+        Index nc = s->compute(Spectra::SortRule::LargestMagn, q.maxit, 1e-10);
+        std::string r = "info=" + str((int) s->info()) + " nconv=" + str(nc) + " ops=" + str(s->num_operations()) + " iters=" + str(s->num_iterations()) + " ev=";
+        auto ev = s->eigenvalues();
+        for (Index i = 0; i < ev.size(); i++) { Cx z(ev[i]); r += (i ? ";" : "") + str(dbits(z.real())) + "," + str(dbits(z.imag())); }
+        return r;
+    } catch (const std::exception& e) { return std::string("exception ") + e.what(); }
+}
+// all cases of one solver kind.  The non-nested reference runs are made in this process; the nested runs in a forked child that
+// works through the cases in order and writes one record per case at once; if the child is killed in case j (sanitizer report, Eigen
+// assertion), j is recorded as a failing input and a new child continues with j+1.
+template <int KIND> static void nest_batch(const Args& a, Out& out, const std::vector<NestCase>& qs) {
+    const size_t N = qs.size();
+    std::vector<std::string> ref(N); std::vector<long> refcalls(N);
+    for (size_t t = 0; t < N; t++) {
+        const NestCase& q = qs[t];
+        { std::ofstream lc(a.out + "/lastcase.txt"); lc << q.rep << " (non-nested reference run)\n"; }
+        // the inner problem alone (top level, nothing nested): the value every nested solve must return
+        NestOp<KIND> in0(q.B); NestOp<KIND> probe(q.A); probe.inner = &in0; probe.in_ncv = q.in_ncv; probe.in_sigma = q.in_sigma;
+        g_nlog = nullptr; const double lam0 = probe.inner_solve();
+        // reference: the same linear map without nesting
+        NestOp<KIND> refop(q.A); refop.use_fixed = true; refop.fixed_lam = lam0; refop.c = q.c;
+        NestLog rl; g_nlog = &rl; ref[t] = nest_run<KIND>(refop, q); g_nlog = nullptr; refcalls[t] = rl.calls[0];
+    }
+    struct Rec { bool begun = false; std::string res, note_sig, note_what; long c0 = 0, c1 = 0, isolves = 0, inonconv = 0, notes = 0; };
+    std::vector<Rec> recs(N); std::vector<int> killed(N, 0);
+    const std::string cf = a.out + "/nested_child.txt";
+    size_t start = 0;
+    while (start < N) {
+        std::remove(cf.c_str());
+        { std::ofstream lc(a.out + "/lastcase.txt"); lc << qs[start].rep << " (first case of a forked batch of nested runs)\n"; }
+        int st = forked([&]() {
+            FILE* f = fopen(cf.c_str(), "w");
+            for (size_t t = start; t < N; t++) {
+                const NestCase& q = qs[t];
+                fprintf(f, "begin %zu\n", t); fflush(f);
+                NestOp<KIND> in1(q.B); NestOp<KIND> op(q.A); op.inner = &in1; op.in_ncv = q.in_ncv; op.in_sigma = q.in_sigma; op.c = q.c;
+                NestLog nl; nl.sink = f; g_nlog = &nl; g_nest.clear();
+                std::string r = nest_run<KIND>(op, q);
+                fprintf(f, "calls %ld %ld %ld %ld %ld\n", nl.calls[0], nl.calls[1], nl.inner_solves, nl.inner_nonconv, nl.notes);
+                fprintf(f, "result %s\n", r.c_str()); fflush(f);
+            }
+            fclose(f);
+        });
+        long cur = -1;
+        { std::ifstream f(cf); std::string ln;
+          while (std::getline(f, ln)) {
+              if (ln.compare(0, 6, "begin ") == 0) { cur = atol(ln.c_str() + 6); if (cur >= 0 && cur < (long) N) recs[cur].begun = true; else cur = -1; }
+              else if (cur < 0) continue;
+              else if (ln.compare(0, 5, "note ") == 0 && recs[cur].note_sig.empty()) { size_t sp = ln.find(' ', 5); recs[cur].note_sig = ln.substr(5, sp - 5); recs[cur].note_what = ln.substr(sp + 1); }
+              else if (ln.compare(0, 6, "calls ") == 0) sscanf(ln.c_str() + 6, "%ld %ld %ld %ld %ld", &recs[cur].c0, &recs[cur].c1, &recs[cur].isolves, &recs[cur].inonconv, &recs[cur].notes);
+              else if (ln.compare(0, 7, "result ") == 0) recs[cur].res = ln.substr(7);
+          } }
+        std::remove(cf.c_str());
+        if (st == 0 && cur == (long) N - 1 && !recs[N - 1].res.empty()) break;
+        // the child died: in case `cur` if that case has no result, otherwise before it could begin the next one
+        size_t j = (cur >= 0 && recs[cur].res.empty()) ? (size_t) cur : (cur >= 0 ? (size_t) cur + 1 : start);
+        if (j >= N) break;
+        killed[j] = st != 0 ? st : 999; recs[j].begun = true;
+        start = j + 1;
+    }
+    for (size_t t = 0; t < N; t++) {
+        const NestCase& q = qs[t]; const Rec& r = recs[t]; const int st = killed[t];
+        const std::string who = std::string(NestSolver<KIND>::name()) + "<NestOp> nested inside its own operator (n_outer=" + str(q.n) + ", n_inner=" + str(q.m) + "): ";
+        out.count("D_nested_cases"); out.count(q.share ? "D_nested_different_size" : "D_nested_equal_size"); out.count(std::string("D_kind_") + NestSolver<KIND>::name());
+        out.count("D_outer_op_calls", r.c0); out.count("D_inner_op_calls", r.c1); out.count("D_inner_solves", r.isolves); out.count("D_inner_not_converged", r.inonconv);
+        if (q.in_ncv == q.ncv && q.m == q.n) out.count("D_identical_shapes");
+        if (!r.note_sig.empty()) out.fail(r.note_sig, who + r.note_what + (st != 0 ? " [then the run was killed: status " + str(st) + "]" : ""), q.rep);
+        else if (st != 0 || r.res.empty()) out.fail("nested-abort", who + "the run was killed (sanitizer report / Eigen assertion / signal), child status " + str(st) + "; the non-nested reference run of the same linear map gave `" + ref[t].substr(0, 120) + "`", q.rep);
+        if (st != 0 || r.res.empty()) { out.count("D_child_aborted"); continue; }
+        if (r.res != ref[t]) out.fail("nested-differs-from-reference", who + "result `" + r.res.substr(0, 200) + "` differs from the non-nested run of the same linear map `" + ref[t].substr(0, 200) + "`", q.rep);
+        else out.count("D_bitwise_equal_to_reference");
+        if (r.res.compare(0, 6, "info=0") == 0) out.count("D_outer_converged");
+        if (r.res.compare(0, 9, "exception") == 0) out.count("D_outer_exception");
+        long bound = 2 + 2L * q.ncv * (q.maxit + 1);
+        if (r.c0 > bound) out.fail("work-bound", who + "outer operator applied " + str(r.c0) + " times > 2+2*ncv*(maxit+1) = " + str(bound), q.rep);
+        if (r.c0 != refcalls[t]) out.fail("nested-differs-from-reference", who + "outer operator applied " + str(r.c0) + " times, " + str(refcalls[t]) + " times in the non-nested run", q.rep);
+    }
+}
+static void nest_dispatch(const Args& a, Out& out, int kind, const std::vector<NestCase>& qs) {
+    if (kind == 0) nest_batch<0>(a, out, qs); else if (kind == 1) nest_batch<1>(a, out, qs); else nest_batch<2>(a, out, qs);
+}
+static void part_D(const Args& a, Out& out) {
+    Spectra::verif::observer() = nullptr;
+    const int per = a.thorough() ? 40 : 6;      // per (kind, share)
+    for (int kind = 0; kind < 3; kind++) {
+        std::vector<NestCase> qs;
+        for (int share = 0; share < 2; share++) for (int i = 0; i < per; i++) qs.push_back(nest_case(a.seed, kind, share, i));
+        nest_dispatch(a, out, kind, qs);
+    }
+}
+static bool replay_D(const Args& a, Out& out) {
+    std::ifstream f(a.replay); std::string t((std::istreambuf_iterator<char>(f)), {});
+    size_t rp = t.find("\"replay\""); if (rp != std::string::npos) t = t.substr(rp);
+    if (t.find("\"part\":\"D\"") == std::string::npos && t.find("\"part\": \"D\"") == std::string::npos) return false;
+    bool diff = t.find("different-size") != std::string::npos;
+    const int kind = (int) jget(t, "kind", 0);
+    nest_dispatch(a, out, kind, std::vector<NestCase>{nest_case((uint64_t) jget(t, "seed", (long) a.seed), kind, diff ? 1 : 0, (int) jget(t, "idx", 0))});
+    out.count("replayed_D");
+    return true;
+}
+
 static bool replay_A(const Args& a, Out& out) {
     std::ifstream f(a.replay); std::string t((std::istreambuf_iterator<char>(f)), {});
     size_t rp = t.find("\"replay\""); if (rp != std::string::npos) t = t.substr(rp);
@@ -361,10 +578,11 @@ static bool replay_A(const Args& a, Out& out) {
 
 int main(int argc, char** argv) {
     Args a(argc, argv); Out out(a.out);
-    if (!a.replay.empty() && replay_A(a, out)) { out.finish(); return 0; }
+    if (!a.replay.empty() && (replay_A(a, out) || replay_D(a, out))) { out.finish(); return 0; }
     part_A(a, out);
     part_B(a, out);
     part_C(a, out);
+    part_D(a, out);
     { std::ofstream lc(a.out + "/lastcase.txt"); lc << "done\n"; }
     out.finish();
     return 0;
